@@ -48,23 +48,29 @@ Proof. repeat split; exact eq_refl. Qed.
 Print Assumptions pipe_code_as_modelled.
 
 (* HTTP/3: what the tunnel's source reads once the client has abandoned its request stream (RESET_STREAM). The read side of
-   Model/H3Stream.v, with the check that the regenerated fact pins: whatever else the client did before or after, and whatever
-   quiche's stream_finished says, a stream whose reset the codec has handled is a FAILED read (which [relay_exact] turns into the
-   tear-down of the whole tunnel), never the end of the upload. *)
+   Model/H3Stream.v, with the two checks that the regenerated facts pin: whatever else the client did before or after, whatever
+   quiche's stream_finished says, and whether or not the codec has been told of the reset and has handled it, a stream the client
+   has reset is a FAILED read (which [relay_exact] turns into the tear-down of the whole tunnel), never the end of the upload:
+   the source learns of the reset from the codec's flag, or from the connection, which it asks before it trusts stream_finished. *)
 Theorem h3_client_reset_is_a_read_failure :
-  H3_SOURCE_RESET_IS_A_READ_FAILURE = true
-  /\ (forall evs, In ClientReset evs -> h3_read_empty H3_SOURCE_RESET_IS_A_READ_FAILURE (h3src_run evs) = SrcErr)
+  H3_SOURCE_RESET_IS_A_READ_FAILURE = true /\ H3_SOURCE_ASKS_THE_CONNECTION = true
+  /\ (forall told evs, In ClientReset evs ->
+        h3_read_empty H3_SOURCE_RESET_IS_A_READ_FAILURE H3_SOURCE_ASKS_THE_CONNECTION (h3src_run told evs) = SrcErr)
   (* an end of the upload is reported only for a stream that was never reset, and that the client finished *)
-  /\ (forall evs, h3_read_empty H3_SOURCE_RESET_IS_A_READ_FAILURE (h3src_run evs) = SrcEof ->
+  /\ (forall told evs, h3_read_empty H3_SOURCE_RESET_IS_A_READ_FAILURE H3_SOURCE_ASKS_THE_CONNECTION (h3src_run told evs) = SrcEof ->
         ~ In ClientReset evs /\ In ClientFin evs).
-Proof. split; [exact eq_refl|exact h3_reset_read_proof]. Qed.
+Proof. split; [exact eq_refl|split; [exact eq_refl|exact h3_reset_read_proof]]. Qed.
 Print Assumptions h3_client_reset_is_a_read_failure.
 
-(* the history of the finding, without the check: the client uploads, resets its stream while the source is busy writing to a
-   destination that does not read; the codec handles the reset (stream shut down and forgotten); the next read is an end of stream *)
+(* the histories of the two findings. Without the flag: the client uploads, resets its stream while the source is busy writing to
+   a destination that does not read; the codec handles the reset (stream shut down and forgotten); the next read is an end of
+   stream. Without the question to the connection: the client resets its stream right behind its last DATA frames; quiche's HTTP/3
+   layer reports Data, then Finished, the codec is never told of a reset (or the source reads before the codec has handled it):
+   the flag is down, stream_finished is true, the read is an end of stream *)
 Example h3_reset_read_as_end_of_upload_without_the_check :
-  h3_read_empty false (h3src_run [ClientReset]) = SrcEof /\ h3_read_empty true (h3src_run [ClientReset]) = SrcErr
-  /\ h3_read_empty true (h3src_run [ClientFin]) = SrcEof /\ h3_read_empty true (h3src_run []) = SrcWait.
+  h3_read_empty false false (h3src_run true [ClientReset]) = SrcEof /\ h3_read_empty true false (h3src_run true [ClientReset]) = SrcErr
+  /\ h3_read_empty true false (h3src_run false [ClientReset]) = SrcEof /\ h3_read_empty true true (h3src_run false [ClientReset]) = SrcErr
+  /\ h3_read_empty true true (h3src_run false [ClientFin]) = SrcEof /\ h3_read_empty true true (h3src_run false []) = SrcWait.
 Proof. vm_compute. repeat split. Qed.
 
 (* Non-vacuity: partial writes, a restart in the middle, clean end *)
